@@ -141,9 +141,15 @@ func (sdbh *SemaDBHandlers) HandleListCollections(w http.ResponseWriter, r *http
 		log.Error().Err(err).Msg("ListCollections failed")
 		return
 	}
-	colItems := make([]ListCollectionItem, len(collections))
-	for i, col := range collections {
-		colItems[i] = ListCollectionItem{Id: col.Id, VectorSize: col.IndexSchema["vector"].VectorVamana.VectorSize, DistanceMetric: col.IndexSchema["vector"].VectorVamana.DistanceMetric}
+	colItems := make([]ListCollectionItem, 0, len(collections))
+	for _, col := range collections {
+		// Collections created through a newer API version need not have the
+		// single "vector" index every v1 collection has; they cannot be
+		// described in v1 terms (and used to crash this handler).
+		if !isV1Collection(col) {
+			continue
+		}
+		colItems = append(colItems, ListCollectionItem{Id: col.Id, VectorSize: col.IndexSchema["vector"].VectorVamana.VectorSize, DistanceMetric: col.IndexSchema["vector"].VectorVamana.DistanceMetric})
 	}
 	resp := ListCollectionsResponse{Collections: colItems}
 	utils.Encode(w, http.StatusOK, resp)
@@ -155,6 +161,13 @@ func (sdbh *SemaDBHandlers) HandleListCollections(w http.ResponseWriter, r *http
 type contextKey string
 
 const collectionContextKey contextKey = "collection"
+
+// The v1 handlers assume the one "vector" Vamana index that v1 collection
+// creation sets up.
+func isV1Collection(col models.Collection) bool {
+	iv, ok := col.IndexSchema["vector"]
+	return ok && iv.VectorVamana != nil
+}
 
 // Extracts collectionId from the URI and fetches the collection from the cluster.
 func (sdbh *SemaDBHandlers) CollectionURIMiddleware(next http.Handler) http.Handler {
@@ -173,6 +186,11 @@ func (sdbh *SemaDBHandlers) CollectionURIMiddleware(next http.Handler) http.Hand
 		}
 		if err != nil {
 			utils.Encode(w, http.StatusInternalServerError, map[string]string{"error": err.Error()})
+			return
+		}
+		if !isV1Collection(collection) {
+			errMsg := fmt.Sprintf("collection %s was not created with the v1 API, use a newer API version", collectionId)
+			utils.Encode(w, http.StatusBadRequest, map[string]string{"error": errMsg})
 			return
 		}
 		// ---------------------------
